@@ -1,11 +1,12 @@
 import Driver.Proto
 import CifModel.Model.Fill
+import CifModel.Model.ScanBuf
 /- family `fills` (C08):  `fills <mode> <dochex> <cuts> [counts=<c1,c2,…>]`  — see harness/x_fills.c.
    The `counts=` argument (the number of units every `read_func` call of the real run asked for) is appended by
    `model_request` of tools/gen/fills.py from the implementation's observation: the scan buffer's bookkeeping, which
    determines those numbers, is not modelled. -/
 namespace Driver.Fam.Fills
-open Driver CifModel CifModel.Model.Fill
+open Driver CifModel CifModel.Model.Fill CifModel.Model.ScanBuf
 
 def name : String := "fills"
 
@@ -56,6 +57,42 @@ def stripFirstCounts (doc : Str) (counts : List Nat) : Option (List Nat) :=
       | c2 :: r2 => if c2 ≠ 1 then none else some r2
     else some r
 
+def checksum (l : Str) : Nat :=
+  (l.foldl (fun (acc : Nat × Nat) u => (acc.1 + 1, (acc.2 + (acc.1 + 1) * u) % 1000003)) (0, 0)).2
+
+/-- the consumer of mode `o`: drop the first a/8 of what is buffered behind text_start, tvalue_start b units further, everything scanned -/
+def consume (a bv : Nat) (b : SB) : SB :=
+  let ts := b.textStart + (b.limit - b.textStart) * a / 8
+  { b with textStart := ts, tvalueStart := ts + min bv (b.limit - ts), next := b.limit }
+
+/-- mode `o`: scan buffer (Model.ScanBuf) and fill functions (Model.Fill) together; one record per successful refill.
+    The request size of every read is the model's own (`room` after `makeRoom`). -/
+def runOffsets (a bv : Nat) : Nat → SB → FillSt → Src → List String → List String × Bool
+  | 0, _, st, _, recs => (recs.reverse, st.atEof)
+  | fuel + 1, b, st, src, recs =>
+    let b1 := consume a bv b
+    if st.atEof then (recs.reverse, true)
+    else
+      let b2 := makeRoom Gen.ParseConsts.bufMinFill b1
+      let r := getMoreChars st b2.room src
+      if r.1 = [] then (recs.reverse, r.2.1.atEof)
+      else
+        let b3 := append b2 r.1
+        let rec_ := s!"{b3.size}:{b3.limit}:{b3.next}:{b3.textStart}:{b3.tvalueStart}:{checksum b3.tokenText}"
+        runOffsets a bv fuel b3 r.2.1 r.2.2 (rec_ :: recs)
+
+def handleOffsets (mode : String) (doc : Str) (chunks : List Str) : Option String := do
+  let ds := mode.toList.drop 1
+  let a ← (String.ofList (ds.take 1)).toNat?
+  let bv ← (String.ofList (ds.drop 1)).toNat?
+  match getFirstChar Gen.ParseConsts.firstCharFoldsSecondCR ⟨chunks⟩ with
+  | none => pure "fl recs=- n=0 eof=1"
+  | some r =>
+    let b0 := append (SB.init Gen.ParseConsts.bufSizeInitial) r.1
+    let res := runOffsets a bv (doc.length + 2) b0 r.2.1 r.2.2 []
+    let recs := if res.1.isEmpty then "-" else "/".intercalate res.1
+    pure s!"fl recs={recs} n={res.1.length} eof={boolStr res.2}"
+
 def handle : Handler
   | mode :: docHex :: cuts :: more => do
       let doc ← unhex docHex
@@ -63,6 +100,7 @@ def handle : Handler
         pure s!"fl lines={lineCount isEolDefault doc}"
       else
         let chunks ← parseCuts doc cuts
+        if mode.startsWith "o" then handleOffsets mode doc chunks else
         let counts ← parseCounts more
         let cs ← stripFirstCounts doc counts
         let r := seenBy Gen.ParseConsts.firstCharFoldsSecondCR cs ⟨chunks⟩
